@@ -27,6 +27,19 @@ func (a *axis) set(doc J, v any) {
 	setPath(doc, a.name, v)
 }
 
+// sink receives the cases of a generator.  own() says whether the next case
+// belongs to this shard (and skips it if not), so that documents are only
+// built where they are evaluated; put() hands over an owned case.
+type sink struct {
+	own func() bool
+	put func(doc J, desc string)
+}
+
+// prefixed returns a sink that prepends p to every case description.
+func (s *sink) prefixed(p string) *sink {
+	return &sink{own: s.own, put: func(doc J, desc string) { s.put(doc, p+desc) }}
+}
+
 type kase struct {
 	idx   int64
 	group string
@@ -348,14 +361,16 @@ func describe(axes []axis, idx []int, vals []int) string {
 }
 
 // product enumerates the full cartesian product of the chosen axes.
-func product(base func() J, axes []axis, chosen []int, emit func(doc J, desc string)) {
+func product(base func() J, axes []axis, chosen []int, s *sink) {
 	vals := make([]int, len(chosen))
 	for {
-		doc := base()
-		for i, a := range chosen {
-			axes[a].set(doc, axes[a].vals[vals[i]])
+		if s.own() {
+			doc := base()
+			for i, a := range chosen {
+				axes[a].set(doc, axes[a].vals[vals[i]])
+			}
+			s.put(doc, describe(axes, chosen, vals))
 		}
-		emit(doc, describe(axes, chosen, vals))
 		k := len(chosen) - 1
 		for k >= 0 {
 			vals[k]++
@@ -373,12 +388,12 @@ func product(base func() J, axes []axis, chosen []int, emit func(doc J, desc str
 
 // tuples enumerates every combination of letters of every t-subset of axes
 // (t = 1: singles, 2: all pairs, 3: all triples).
-func tuples(base func() J, axes []axis, t int, emit func(doc J, desc string)) {
+func tuples(base func() J, axes []axis, t int, s *sink) {
 	chosen := make([]int, t)
 	var rec func(pos, from int)
 	rec = func(pos, from int) {
 		if pos == t {
-			product(base, axes, chosen, emit)
+			product(base, axes, chosen, s)
 			return
 		}
 		for a := from; a < len(axes); a++ {
